@@ -580,6 +580,10 @@ class Flow:
             for a in args:
                 cut = min(cut, self._q_operand(fid, a, ("#cmp",), acc))
             return cut
+        # shared-pointer constructors are transparent: Ptr::new(x) holds exactly x
+        if tgt in self.F.fns and self.F.fns[tgt].id.startswith("layout21utils::ptr::") and self.F.fns[tgt].short.endswith("Ptr::new") and args:
+            acc.add(("via", "Ptr::new"))
+            return self._q_operand(fid, args[0], rest, acc)
         # closure call: `<closure as Fn*>::call*(clo, (args,))`
         if tgt in self.F.fns:
             return self._apply_summary(fid, tgt, args, 0, rest, acc, name)
